@@ -12,5 +12,6 @@ open SwayVerif.C08
 #print axioms C08_no_clobber
 #print axioms C08_no_clobber_pipeline
 #print axioms validAlloc_sound
+#print axioms validRound_sound
 #print axioms C08_simulation
 #print axioms C08_checked_simulation
